@@ -389,10 +389,22 @@ pub struct Var {
     pub kind: VarKind,
 }
 
-#[derive(Debug, Clone, PartialEq)]
+#[derive(Debug, Clone)]
 enum Name {
     Name(Ref),
     Namespace(FileOrLib, Span),
+}
+
+// Two names are the same when they stand for the same thing - where a namespace was imported
+// (the span) doesn't matter, so the same file can be imported more than once.
+impl PartialEq for Name {
+    fn eq(&self, other: &Self) -> bool {
+        match (self, other) {
+            (Name::Name(a), Name::Name(b)) => a == b,
+            (Name::Namespace(a, _), Name::Namespace(b, _)) => a == b,
+            _ => false,
+        }
+    }
 }
 
 /// Parentheses don't mean anything - `(fn do end)` is as much a function as `fn do end`.
